@@ -51,7 +51,7 @@ fn data_items() -> Vec<&'static str> {
 }
 
 fn rem_forms() -> Vec<&'static str> {
-    vec!["REM", "REM x", "REM  two  blanks ", "REM a:b:PRINT 1", "REMé", "REM \"q"]
+    vec!["REM", "REM x", "REM  two  blanks ", "REM a:b:PRINT 1", "REMé", "REM \"q", "REM dos\r", "REM tab\t", "REM nbsp\u{a0}"]
 }
 
 pub const READER: &str = "9000 READ Z$: PRINT \"[\";Z$;\"]\": GOTO 9000";
@@ -172,6 +172,22 @@ pub fn check_program(lines: &[String]) -> Result<bool, (String, String)> {
                 format!("{:?}: stored tokens {:?}, after reload {:?}", lines, ta, tb),
             ));
         }
+        // the listing saved to a file and loaded back (the CLI's way in) is the same program too
+        {
+            let text = reload.join("\n");
+            match guarded(move || abasic_core::SourceFileAnalyzer::analyze(text).into_interpreter()) {
+                Ok(it) => {
+                    let tc = Sess::from_interpreter(it).it.verif_snapshot().lines;
+                    if ta != tc {
+                        return Err((
+                            format!("listing loaded as a file differs: {}", where_tokens_change(&ta, &tc)),
+                            format!("{:?}: stored tokens {:?}; the listing {:?} loaded as a source file gives {:?}", lines, ta, reload, tc),
+                        ));
+                    }
+                }
+                Err(p) => return Err((format!("panic while loading the listing as a file {}", short_panic(&p)), p)),
+            }
+        }
         let (r1, r2) = (transcript(lines, None), transcript(&reload, None));
         if r1 != r2 {
             return Err((
@@ -191,6 +207,55 @@ pub fn check_program(lines: &[String]) -> Result<bool, (String, String)> {
     match r {
         Ok(x) => x,
         Err(p) => Err((format!("panic {}", short_panic(&p)), format!("{:?}: {}", lines, p))),
+    }
+}
+
+/// The stored program of a session with history: lines entered, the DATA read once, lines
+/// replaced and added, then the program as it stands is run in that session and, from its
+/// listing, in a fresh interpreter.
+fn check_session(a: &str, b: &str) -> Result<(), (String, String)> {
+    let a = a.to_string();
+    let b = b.to_string();
+    let r = guarded(move || {
+        let mut s = Sess::new();
+        let mut hist = vec![format!("10 {}", a), "1 GOTO 9000".to_string(), READER.to_string()];
+        for l in &hist {
+            let _ = s.apply(&Ev::Line(l.clone()));
+        }
+        let mut none = std::iter::empty();
+        let _ = s.run_line("RUN", &mut none, 300);
+        if s.state() != abasic_core::InterpreterState::Idle {
+            let _ = s.apply(&Ev::Break);
+        }
+        hist.push("RUN".into());
+        for l in [format!("10 PRINT \"p\";: {}", b), format!("20 {}", a), format!("30 PRINT \"q\": {}", b)] {
+            let _ = s.apply(&Ev::Line(l.clone()));
+            hist.push(l);
+        }
+        let listing: Vec<String> = list_of(&mut s).iter().map(|l| l.trim_end_matches('\n').to_string()).collect();
+        s.recs.clear();
+        let end = s.run_line("RUN", &mut none, 300);
+        let mut t1: Vec<String> = s.recs.iter().map(|r| format!("{:?}", r)).collect();
+        t1.push(format!("{:?}", end));
+        let mut f = Sess::new();
+        for l in &listing {
+            let _ = f.apply(&Ev::Line(l.clone()));
+        }
+        f.recs.clear();
+        let end2 = f.run_line("RUN", &mut none, 300);
+        let mut t2: Vec<String> = f.recs.iter().map(|r| format!("{:?}", r)).collect();
+        t2.push(format!("{:?}", end2));
+        if t1 != t2 {
+            return Err((
+                "RUN of a program stored by a session with history differs from its reloaded listing".to_string(),
+                format!("session {:?}: RUN gives {:?}; the listing {:?} entered into a fresh interpreter gives {:?}", hist, t1, listing, t2),
+            ));
+        }
+        Ok(())
+    });
+    match r {
+        Ok(x) => x,
+        Err(p) => Err((format!("panic {}", short_panic(&p)), p)),
     }
 }
 
@@ -279,6 +344,25 @@ pub fn run(thorough: bool) -> Report {
             }
         }
     }
+    // sessions with history over the same core
+    let pairs: Vec<(usize, usize)> = (0..core.len()).flat_map(|a| (0..core.len()).map(move |b| (a, b))).collect();
+    let sess_res: Vec<(usize, usize, (String, String))> = pairs.par_iter().filter_map(|(a, b)| check_session(&core[*a], &core[*b]).err().map(|e| (*a, *b, e))).collect();
+    let session_pairs = pairs.len() as u64;
+    {
+        let mut seen = std::collections::HashSet::new();
+        let mut v = sess_res;
+        v.sort_by_key(|(a, b, _)| core[*a].len() + core[*b].len());
+        for (a, b, (sig, detail)) in v {
+            rep.violating_cases += 1;
+            if seen.insert(sig.clone()) {
+                rep.violations.push(Violation {
+                    signature: sig,
+                    detail,
+                    case: json!({"kind":"history","events": hist_json(&[Ev::Line(format!("10 {}", core[a])), Ev::Line("1 GOTO 9000".into()), Ev::Line(READER.into()), Ev::LineToIdle("RUN".into()), Ev::Line(format!("10 PRINT \"p\";: {}", core[b])), Ev::Line(format!("20 {}", core[a])), Ev::Line(format!("30 PRINT \"q\": {}", core[b])), Ev::Line("LIST".into()), Ev::LineToIdle("RUN".into())]), "warnings": false, "tracing": false}),
+                });
+            }
+        }
+    }
     for (sig, (cnt, i, detail)) in by_sig {
         rep.violating_cases += cnt;
         rep.violations.push(Violation {
@@ -297,6 +381,7 @@ pub fn run(thorough: bool) -> Report {
         "numerals": numerals().len(),
         "data_lines": data_lines.len(),
         "two_line_core": core.len(),
+        "sessions_with_history": session_pairs,
         "samples": ["10 IF X THEN 20 ELSE 10", "10 DATA x \"y\", \" a \" : PRINT 1", format!("10 PRINT {}", "9".repeat(12))],
     });
     rep.assumptions = vec!["behaviour under RUN is compared by transcript with a 300-turn cap; DATA items are pinned by a reader block appended to both programs".into()];
